@@ -81,24 +81,49 @@ func (f *faultCloner) Clone(in interface{}) (interface{}, error) {
 // the gate "unary.copy" before it reads anything, i.e. inside the decode
 // callback the library hands to the handler, after whatever check the library
 // makes and before the request object is read.
-type gatedCloner struct{ inner inprocgrpc.Cloner }
+//
+// Clone (the copy SendMsg makes of a message, on either side of a stream,
+// inside the sender's critical section) parks at "stream.clone".
+type gatedCloner struct {
+	inner  inprocgrpc.Cloner
+	copies *int32
+	gCopy  bool
+	gClone bool
+}
 
 func (g gatedCloner) Copy(out, in interface{}) error {
-	gateHook("unary.copy")
+	// only the first copy of a run: the decode of the unary request (later
+	// copies -- the response on its way to the caller -- run freely)
+	if g.gCopy && atomic.AddInt32(g.copies, 1) == 1 {
+		gateHook("unary.copy")
+	}
 	return g.inner.Copy(out, in)
 }
 
-func (g gatedCloner) Clone(in interface{}) (interface{}, error) { return g.inner.Clone(in) }
+func (g gatedCloner) Clone(in interface{}) (interface{}, error) {
+	if g.gClone {
+		gateHook("stream.clone")
+	}
+	return g.inner.Clone(in)
+}
 
 func clonerFor(sc *Script) inprocgrpc.Cloner {
 	cl := baseCloner(sc.Cloner)
+	g := gatedCloner{copies: new(int32)}
 	for _, p := range sc.Gates {
 		if p == "unary.copy" {
-			if cl == nil {
-				cl = inprocgrpc.ProtoCloner{}
-			}
-			return gatedCloner{cl}
+			g.gCopy = true
 		}
+		if p == "stream.clone" {
+			g.gClone = true
+		}
+	}
+	if g.gCopy || g.gClone {
+		if cl == nil {
+			cl = inprocgrpc.ProtoCloner{}
+		}
+		g.inner = cl
+		return g
 	}
 	return cl
 }
